@@ -39,7 +39,7 @@ ASSUMPTIONS = [
     "ties between decoders that return equal dictionaries are accepted for previous_success_decoder",
     "an exception escaping the AutoDecoder is C15's violation; it is additionally a C12 violation only when some decoder accepts the payload (a result was owed)",
 ]
-MUST_FIRE = {"quick": ["meter_swap_steps", "nobody_accepts_steps", "sticky_steps", "own_decoder_histories", "lockstep_hdlc", "lockstep_dlms", "bystander_decoder_instance"], "thorough": ["meter_swap_steps", "nobody_accepts_steps", "sticky_steps", "own_decoder_histories", "lockstep_hdlc", "lockstep_dlms"]}
+MUST_FIRE = {"quick": ["meter_swap_steps", "nobody_accepts_steps", "sticky_steps", "own_decoder_histories", "lockstep_hdlc", "lockstep_dlms", "bystander_decoder_instance", "entry_readout", "entry_hdlc"], "thorough": ["meter_swap_steps", "nobody_accepts_steps", "sticky_steps", "own_decoder_histories", "lockstep_hdlc", "lockstep_dlms"]}
 
 
 def gen(rng, tier, index):
@@ -54,9 +54,24 @@ def gen(rng, tier, index):
             hist.append({"data": e["data"].hex(), "k": "genuine", "src": e["name"]})
         yield {"history": hist, "own": messages.own_decoder(e0), "bystander": rng.randrange(1, 32) if rng.random() < 0.3 else 0}
         return
+    if rng.random() < 0.08:
+        # a success, then a long run of payloads nobody accepts (line noise for a while), then genuine traffic again
+        e0 = rng.choice(pool)
+        hist = [{"data": e0["data"].hex(), "k": "genuine", "src": e0["name"]}]
+        for _ in range(rng.randint(8, 25)):
+            hist.append({"data": rng.randbytes(rng.randint(1, 40)).hex(), "k": "junk"})
+        for _ in range(rng.randint(1, 3)):
+            e = rng.choice(pool)
+            hist.append({"data": e["data"].hex(), "k": "genuine", "src": e["name"]})
+        yield {"history": hist, "own": None, "bystander": 0}
+        return
+    mixed = rng.random() < 0.4  # one instance used through both entry points and all message classes
     for _ in range(n):
         data, desc = messages.draw_payload(rng)
-        hist.append({"data": data.hex(), "k": desc["k"], "src": desc.get("src")})
+        item = {"data": data.hex(), "k": desc["k"], "src": desc.get("src")}
+        if mixed:
+            item["e"] = rng.choice(["payload", "payload", "hdlc", "dlms", "readout"])
+        hist.append(item)
     yield {"history": hist, "own": None, "bystander": rng.randrange(1, 32) if rng.random() < 0.2 else 0}
 
 
@@ -129,6 +144,28 @@ def execute(sc):
             except Exception:  # noqa: BLE001
                 pass
         acc = acceptors(payload)
+        entry = item.get("e", "payload")
+        msg1 = None
+        if entry == "hdlc":
+            msg1 = decoder_rig.as_hdlc_frame(payload)
+        elif entry == "dlms" and payload:
+            msg1 = decoder_rig.as_dlms(payload)
+        elif entry == "readout" and payload:
+            msg1 = decoder_rig.as_readout(payload)
+            if msg1 is not None and msg1.payload == payload:
+                # a P1 readout handed over as a message is decoded together with its identification line
+                from han import dlde
+
+                acc = dict(acc)
+                try:
+                    acc["P1"] = dlde.decode_p1_readout(msg1)
+                except Exception:  # noqa: BLE001
+                    acc.pop("P1", None)
+                bump("entry_readout")
+            else:
+                msg1 = None
+        if msg1 is not None and entry != "readout":
+            bump(f"entry_{entry}")
         states.add((last, tuple(sorted(acc))))
         try:
             before = d1.previous_success_decoder
@@ -136,7 +173,7 @@ def execute(sc):
             add("M4", f"previous_success_decoder-raised {type(ex).__name__}", f"step {step}: accessor raised {ex!r}")
             break
         try:
-            r1 = d1.decode_message_payload(payload)
+            r1 = d1.decode_message(msg1) if msg1 is not None else d1.decode_message_payload(payload)
         except Exception as ex:  # noqa: BLE001
             if acc:
                 add("M0", f"exception-although-accepted {type(ex).__name__}", f"step {step}: decode_message_payload raised {ex!r} although {sorted(acc)} accept the payload (remembered {before})")
@@ -180,6 +217,8 @@ def execute(sc):
             if msg is None or step % 3 == 2:
                 msg = decoder_rig.as_dlms(payload)
                 kind = "dlms"
+            if msg1 is not None and entry == "readout":
+                msg, kind = msg1, "readout"  # the lockstep instance must see the same history
             try:
                 r2 = d2.decode_message(msg)
             except Exception as ex:  # noqa: BLE001
